@@ -57,10 +57,21 @@ func (p *Paragraph) Set(key, value string) {
 
 func (p *Paragraph) WriteTo(out io.Writer) error {
 	for _, key := range p.Order {
-		value := p.Values[key]
+		/* A single trailing newline only ends the last line of the value,
+		 * it does not start another (empty) line. */
+		lines := strings.Split(strings.TrimSuffix(p.Values[key], "\n"), "\n")
 
-		value = strings.Replace(value, "\n", "\n ", -1)
-		value = strings.Replace(value, "\n \n", "\n .\n", -1)
+		/* The first line goes next to the key, all of the others are
+		 * continuation lines, which are indented by one space. A blank
+		 * continuation line would end the paragraph, so it's written
+		 * as " ." instead. */
+		value := lines[0]
+		for _, line := range lines[1:] {
+			if strings.TrimSpace(line) == "" {
+				line = "."
+			}
+			value = value + "\n " + line
+		}
 
 		if _, err := out.Write(
 			[]byte(fmt.Sprintf("%s: %s\n", key, value)),
